@@ -37,10 +37,11 @@ type Profile struct {
 	NoElif        bool
 	NoShadow      bool // no let that reuses the name of an outer variable
 	FnPayloads    bool // a union some of whose cases carry a function (matched, the payload applied in the arm)
+	MatchArgs     bool // a match written as an argument of a call / of a partial application used as a pipe stage
 }
 
 var Full = Profile{Name: "full", Probes: true, Lambdas: true, LocalFuncs: true, StringMatch: true, Interp: true, MulDiv: true, Tuple3: true,
-	Generics: true, Buf: true, Dict: true, ReturnedFns: true, FnPayloads: true, RecursiveTys: true, MaxUnits: 8, MaxDepth: 4, AnnotateAll: true}
+	Generics: true, Buf: true, Dict: true, ReturnedFns: true, FnPayloads: true, MatchArgs: true, RecursiveTys: true, MaxUnits: 8, MaxDepth: 4, AnnotateAll: true}
 
 // FuncSig is a callable known to the generator.
 type FuncSig struct {
@@ -123,6 +124,7 @@ type Gen struct {
 	globals   []*varInfo      // top-level variables defined so far
 	inRhs     int             // >0: inside the right-hand side of a let (no local function definitions there)
 	fuel      int             // expression nodes left for the top-level function under construction
+	tvUsed int // probes emitted in the current top-level definition
 	typeLabel map[string]string
 }
 
@@ -343,7 +345,7 @@ func (g *Gen) useVar(v *varInfo) *Expr {
 func (g *Gen) literal(sc *scope, t *Type, depth int) *Expr {
 	switch t.K {
 	case "int":
-		if g.P.Probes && g.pure == 0 && g.chance(1, 16, "bigIntLit") {
+		if g.P.Probes && g.pure == 0 && !g.probeBudgetSpent() && g.chance(1, 16, "bigIntLit") {
 			// the widths at which an implementation might switch representation. Always handed through the
 			// probe function: Go folds an expression of literals as an untyped constant and rejects it when
 			// the result leaves int64 ("constant overflows"), a rule of Go's constant arithmetic that a value
@@ -475,11 +477,72 @@ func isSorted(a []int) bool {
 	return true
 }
 
+// MaxProbesPerFunc and TVarCostLimit keep one top-level definition below fc's capacity of 100 type
+// variables per top-level definition ("Too many type var alloc."): every reference to a generic function
+// (the probe function included) takes one per type parameter. Probes stop at MaxProbesPerFunc and once
+// the expression fuel is spent; a body whose estimated cost still exceeds TVarCostLimit is generated again,
+// smaller (genFunc).
+const (
+	MaxProbesPerFunc = 40
+	TVarCostLimit    = 75
+)
+
+func (g *Gen) probeBudgetSpent() bool { return g.fuel <= 0 || g.tvUsed >= MaxProbesPerFunc }
+
+// TVarCost estimates from above how many type variables fc allocates for a body.
+func (g *Gen) TVarCost(b *Block) int {
+	n := 0
+	b.Walk(func(e *Expr) {
+		switch e.K {
+		case "call", "var":
+			switch {
+			case e.Name == "slice.New" && len(e.TArgs) > 0:
+			case strings.HasPrefix(e.Name, "trace"), e.Name == "idd":
+				n++
+			case e.Name == "konst", e.Name == "applyTo", e.Name == "pair":
+				n += 2
+			case strings.HasPrefix(e.Name, "slice."), strings.HasPrefix(e.Name, "dict."), strings.HasPrefix(e.Name, "frt."):
+				n += 2
+			default:
+				for _, u := range g.Unions {
+					if len(u.TParams) > 0 {
+						for _, c := range u.Cases {
+							if c.Name == e.Name {
+								n += len(u.TParams)
+							}
+						}
+					}
+				}
+				for _, f := range g.Funcs {
+					if f.Name == e.Name {
+						n += len(f.TParams)
+					}
+				}
+			}
+		case "lambda":
+			for _, p := range e.Params {
+				if !p.Annot {
+					n++
+				}
+			}
+		case "pipe":
+			n += 2
+		case "if", "matchu", "matchs", "fieldfn":
+			n++
+		}
+	})
+	return n
+}
+
 // probe wraps e in an effect probe: (trace "tN" e).
 func (g *Gen) probe(e *Expr) *Expr {
 	if !g.P.Probes || g.pure > 0 || !e.T.FirstOrder() || e.T.K == "unit" {
 		return e
 	}
+	if g.probeBudgetSpent() {
+		return e
+	}
+	g.tvUsed++
 	name := "trace"
 	if g.P.Tinyfo {
 		switch e.T.K {
@@ -561,6 +624,19 @@ func (g *Gen) expr0(sc *scope, t *Type, depth int) *Expr {
 						g.label("field access")
 						return &Expr{K: "field", Name: f.Name, Args: []*Expr{g.useVar(v)}, T: t}
 					})
+				}
+				if ft.K == "rec" && len(ft.E) == 0 {
+					// a chain v.F.G through a record-typed field
+					for _, f2 := range g.rec(ft.Name).Fields {
+						if f2.T.Equal(t) {
+							v, f, f2, ft := v, f, f2, ft
+							add(9, func() *Expr {
+								g.label("field access chain a.B.C")
+								inner := &Expr{K: "field", Name: f.Name, Args: []*Expr{g.useVar(v)}, T: ft}
+								return &Expr{K: "field", Name: f2.Name, Args: []*Expr{inner}, T: t}
+							})
+						}
+					}
 				}
 			}
 		}
